@@ -194,16 +194,16 @@ func (p ICMP6RouterSolicitation) Type() uint8   { return uint8(p[0]) }
 func (p ICMP6RouterSolicitation) Code() byte    { return p[1] }
 func (p ICMP6RouterSolicitation) Checksum() int { return int(binary.BigEndian.Uint16(p[2:4])) }
 func (p ICMP6RouterSolicitation) SourceLLA() net.HardwareAddr {
-	// RS options may containg a single SourceLLA option
-	// len is therefore: 26 = 4 bytes header + 4 bytes reserved + 2 bytes option header + 16 IP bytes SourceLLA option
-	if len(p) >= 26 && p[8] == 1 && p[9] == 3 { // type == SourceLLA & 24 bytes len (3 * 8bytes)
-		return net.HardwareAddr(p[10 : 10+16])
+	// RS options may containg a single SourceLLA option (RFC 4861 4.6.1)
+	// len is therefore: 16 = 4 bytes header + 4 bytes reserved + 2 bytes option header + 6 bytes link layer address
+	if len(p) >= 16 && p[8] == 1 && p[9] == 1 { // type == SourceLLA & 8 bytes len
+		return net.HardwareAddr(p[10 : 10+6])
 	}
 	return nil
 }
 
 func (p ICMP6RouterSolicitation) Options() (NewOptions, error) {
-	if len(p) <= 24 {
+	if len(p) <= 8 { // options follow the 4 byte header and 4 reserved bytes
 		return NewOptions{}, nil
 	}
 	/**
@@ -214,7 +214,7 @@ func (p ICMP6RouterSolicitation) Options() (NewOptions, error) {
 		}
 	}
 	**/
-	return newParseOptions(p[24:])
+	return newParseOptions(p[8:])
 }
 
 func (p ICMP6RouterSolicitation) String() string {
